@@ -192,13 +192,13 @@ pub fn hostile(rng: &mut Rng) -> (Vec<u8>, &'static str, Vec<&'static str>) {
             }
             (v, "several_top_level_elements", kinds)
         }
-        5 if rng.pct(12) => {
+        5 if rng.pct(20) => {
             // large but shallow inputs: very wide parents, very many attributes, very long names
             let mut v = Vec::new();
             match rng.below(4) {
                 0 => {
                     let n = *rng.pick(&[300usize, 700, 1100, 1500]);
-                    let names = rng.range(1, 40);
+                    let names = *rng.pick(&[1usize, 1, 2, 3, 10, 40]);
                     v.extend_from_slice(b"<r>");
                     let with_content = rng.pct(60);
                     for i in 0..n {
